@@ -47,6 +47,9 @@ func ParseAuditPath(serialized map[string]hashing.Digest) AuditPath {
 	parsed := make(AuditPath, len(serialized))
 	for k, v := range serialized {
 		tokens := strings.Split(k, "|")
+		if len(tokens) != 2 {
+			continue // not "index|height": names no position, can never be read
+		}
 		index, _ := strconv.Atoi(tokens[0])
 		height, _ := strconv.Atoi(tokens[1])
 		var key [keySize]byte
